@@ -202,6 +202,20 @@ impl Prop for C06 {
     }
 
     fn check(case: &Case, ctx: &mut Ctx) -> Result<(), Fail> {
+        /// a writer that takes nothing
+        struct Refuse;
+        impl std::io::Write for Refuse {
+            fn write(&mut self, buf: &[u8]) -> std::io::Result<usize> {
+                if buf.is_empty() {
+                    Ok(0)
+                } else {
+                    Err(std::io::ErrorKind::WouldBlock.into())
+                }
+            }
+            fn flush(&mut self) -> std::io::Result<()> {
+                Ok(())
+            }
+        }
         match case {
             Case::RoundTrip { cmds, cuts } => {
                 let caps = TerminalCaps { depth: ColorDepth::TrueColor, glyphs: false, kitty_keyboard: false };
@@ -214,7 +228,18 @@ impl Prop for C06 {
                     Char(char),
                 }
                 let mut want = Vec::new();
-                for cmd in cmds {
+                for (k, cmd) in cmds.iter().enumerate() {
+                    // a congested output refuses a face change now and then: nothing of it is written,
+                    // and nothing of it may be carried into what the encoder writes next
+                    if (k + cmds.len()) % 3 == 0 {
+                        let refused = match &cmds[(k * 5 + 1) % cmds.len()] {
+                            Cmd::Modify(m) => TerminalCommand::FaceModify(face_modify(m)),
+                            Cmd::Face(f) => TerminalCommand::Face(f.to_face()),
+                            Cmd::Char(c) => TerminalCommand::Char(char::from_u32(*c).unwrap_or('?')),
+                        };
+                        let result = encoder.encode(&mut Refuse, refused);
+                        ctx.feat_if(result.is_err(), "roundtrip.command-refused-by-writer");
+                    }
                     match cmd {
                         Cmd::Modify(m) => {
                             encoder
